@@ -30,11 +30,14 @@ package nodenumaresource
 //     compressed, possibly late: the echo of a plain bind / metadata update may not have arrived at
 //     the cut, but termination and deletion events are flushed to the live scheduler before the
 //     comparison (otherwise the live scheduler is simply behind and nothing can be compared).
-//   * Restart delivery: topologies are in place before any pod/reservation event (DESIGN: the
-//     start-up sequence syncs nodes/topologies/devices/reservations before pods; orders that
-//     sequence cannot produce are not generated), reservations before pods, arbitrary order within a
-//     kind. Per object: Add of some bound version, then Updates in version order (possibly skipping
-//     versions), 20 % duplicate Adds and 20 % no-op Updates of the version delivered last.
+//   * Restart delivery: one consistent LIST snapshot taken after the crash (each surviving object once,
+//     in its latest version, arbitrary order within a kind), 20 % duplicate Adds and 20 % no-op Updates
+//     of that version, then watch events in per-object version order. Across kinds: in 75 % of the
+//     cases topologies first, then reservations, then pods; in 25 % ("race") the NodeResourceTopology
+//     add of some nodes falls among the pod / reservation adds, as the start-up pipeline of this tree
+//     allows (cmd/koord-scheduler/app/server.go starts the three informer factories together; the
+//     plugins' ForceSyncFromInformer only registers the handler). Nothing is re-delivered unless an
+//     event for it is generated.
 //
 // Oracle (never reads the wall clock): after the replay, per node
 //   live NodeAllocation  ==  replayed NodeAllocation   (pods, per-pod cpuset and per-NUMA amounts,
@@ -246,6 +249,10 @@ type c19Obj struct {
 	patched  interface{}   // object after PreBind, before bind (*corev1.Pod / *Reservation)
 	versions []interface{} // bound versions in order
 	echoed   int           // number of bound versions the live scheduler's informer has delivered
+
+	// restart delivery: was a bound version of the object handed to the restarted scheduler before / after its
+	// node's topology was known there
+	beforeTopo, afterTopo bool
 }
 
 func (o *c19Obj) kind() string {
@@ -814,6 +821,8 @@ type c19Event struct {
 	old, new interface{}
 	isRsv    bool
 	what     string
+	obj      *c19Obj
+	topo     *c19Node // the event is the add of this node's NodeResourceTopology
 }
 
 func TestVerifC19NUMARestart(t *testing.T) {
@@ -1089,9 +1098,39 @@ func TestVerifC19NUMARestart(t *testing.T) {
 			// API changes made after the snapshot (tail: touch / terminate / delete - nothing is scheduled while
 			// the scheduler is down) arrive as watch events after the object's add; the live instance is fed the same
 			// tail so that it stays the reference for "what a scheduler that did not crash would hold".
+			//
+			// Cross-kind order. cmd/koord-scheduler/app/server.go starts the pod informer factory, the Koordinator
+			// factory (reservations) and the NodeResourceTopology factory together, so the handlers race: in 25 % of
+			// the cases ("race") the NodeResourceTopology add of some nodes is delivered somewhere among the pod and
+			// reservation adds, and reservations are not ordered before pods. Nothing is re-delivered afterwards
+			// unless an event for it exists (duplicate add, no-op update, watch event). In the other cases the
+			// topologies are in place first and reservations precede pods.
 			tomR := NewTopologyOptionsManager()
+			race := r.Pct(25)
+			installed := map[string]bool{}
+			var topoQueues [][]c19Event
+			if race {
+				c.Count("race_cases", 1)
+				lateAny := false
+				for i, n := range nodes {
+					if r.Pct(70) || (!lateAny && i == len(nodes)-1) {
+						lateAny = true
+						topoQueues = append(topoQueues, []c19Event{{topo: n, what: "add NodeResourceTopology " + n.name}})
+						c.Count("race_nodes_with_late_topology", 1)
+					}
+				}
+			}
 			for _, n := range nodes {
-				n.install(tomR)
+				late := false
+				for _, q := range topoQueues {
+					if q[0].topo == n {
+						late = true
+					}
+				}
+				if !late {
+					n.install(tomR)
+					installed[n.name] = true
+				}
 			}
 			rmR := &resourceManager{numaAllocateStrategy: rmL.numaAllocateStrategy, topologyOptionsManager: tomR, nodeAllocations: map[string]*NodeAllocation{}}
 			hR := &podEventHandler{resourceManager: rmR}
@@ -1137,10 +1176,28 @@ func TestVerifC19NUMARestart(t *testing.T) {
 				default:
 					continue
 				}
+				for i := range q {
+					q[i].obj = o
+				}
 				qIndex[o] = len(queues[o.isRsv])
 				queues[o.isRsv] = append(queues[o.isRsv], q)
 			}
 			apply := func(ev c19Event) {
+				if ev.topo != nil {
+					ev.topo.install(tomR)
+					installed[ev.topo.name] = true
+					c.Op("restart informer: %s", ev.what)
+					c.Count("replay_events_topology_add_among_pods", 1)
+					return
+				}
+				if ev.obj != nil && !ev.del && (ev.obj.state == c19Bound || ev.obj.state == c19Terminated) {
+					if installed[ev.obj.node.name] {
+						ev.obj.afterTopo = true
+					} else {
+						ev.obj.beforeTopo = true
+						c.Count("race_events_delivered_before_topology", 1)
+					}
+				}
 				h := cache.ResourceEventHandler(hR)
 				if ev.isRsv {
 					h = rhR
@@ -1189,7 +1246,7 @@ func TestVerifC19NUMARestart(t *testing.T) {
 						prev := o.latest()
 						o.versions = append(o.versions, c19Touch(r, prev))
 						echo(o, len(o.versions))
-						return o, &c19Event{old: prev, new: o.latest(), isRsv: o.isRsv, what: fmt.Sprintf("update %s %s v%d->v%d (touch after the snapshot)", o.kind(), o.name, len(o.versions)-1, len(o.versions))}
+						return o, &c19Event{obj: o, old: prev, new: o.latest(), isRsv: o.isRsv, what: fmt.Sprintf("update %s %s v%d->v%d (touch after the snapshot)", o.kind(), o.name, len(o.versions)-1, len(o.versions))}
 					}
 				case 1:
 					if o := pick(func(o *c19Obj) bool { return o.state == c19Bound }); o != nil {
@@ -1198,7 +1255,7 @@ func TestVerifC19NUMARestart(t *testing.T) {
 						o.state = c19Terminated
 						echo(o, len(o.versions))
 						c.Count("terminated_after_snapshot", 1)
-						return o, &c19Event{old: prev, new: o.latest(), isRsv: o.isRsv, what: fmt.Sprintf("update %s %s v%d->v%d (terminated after the snapshot)", o.kind(), o.name, len(o.versions)-1, len(o.versions))}
+						return o, &c19Event{obj: o, old: prev, new: o.latest(), isRsv: o.isRsv, what: fmt.Sprintf("update %s %s v%d->v%d (terminated after the snapshot)", o.kind(), o.name, len(o.versions)-1, len(o.versions))}
 					}
 				case 2:
 					if o := pick(func(o *c19Obj) bool { return o.state == c19Bound || o.state == c19Terminated }); o != nil {
@@ -1210,18 +1267,54 @@ func TestVerifC19NUMARestart(t *testing.T) {
 						}
 						o.state = c19Deleted
 						c.Count("deleted_after_snapshot", 1)
-						return o, &c19Event{del: true, old: o.latest(), isRsv: o.isRsv, what: fmt.Sprintf("delete %s %s (after the snapshot)", o.kind(), o.name)}
+						return o, &c19Event{obj: o, del: true, old: o.latest(), isRsv: o.isRsv, what: fmt.Sprintf("delete %s %s (after the snapshot)", o.kind(), o.name)}
 					}
 				}
 				return nil, nil
 			}
 			ntail := kit.Pick(r, []int{0, 0, 1, 2, 3, 5})
 			cmp := &c19Cmp{c: c, nodes: nodes, objs: objs}
+			deliverAll := func() {
+				if race {
+					all := append(append(append([][]c19Event{}, queues[true]...), queues[false]...), topoQueues...)
+					deliver(all)
+					return
+				}
+				deliver(queues[true]) // reservations before pods
+				deliver(queues[false])
+			}
+			// lostBeforeTopology: the allocation of an object whose every event so far reached the restarted scheduler
+			// before its node's topology is dropped by resourceManager.Update (invalid topology) and nothing brings it
+			// back. That loss is reported under its own signature, and ONLY that: the object is then re-delivered by a
+			// harness-made no-op update (what a later resync would do) and the full comparison that follows must find
+			// live and restarted state equal - any other difference keeps the generic signatures.
+			lostBeforeTopology := func() {
+				for _, o := range objs {
+					if !o.holds() || c19Empty(o.alloc) || !o.beforeTopo || o.afterTopo {
+						continue
+					}
+					c.Count("race_objects_delivered_only_before_topology", 1)
+					if _, ok := rmR.GetNodeAllocation(o.node.name).allocatedPods[o.uid]; ok {
+						c.Count("race_objects_delivered_only_before_topology_kept", 1)
+						continue
+					}
+					c.Count("race_objects_delivered_only_before_topology_lost", 1)
+					c.Report("C19/numa/replay/allocation-lost-when-pod-delivered-before-topology", "node %s: %s %s is bound and holds %s; the restarted scheduler received it before the node's NodeResourceTopology (pod, reservation and topology informers are started together), resourceManager.Update dropped the allocation because the CPU topology was not valid yet, and nothing re-delivers it: its CPUs / NUMA amounts are free after the restart", o.node.name, o.kind(), o.name, c19AllocStr(o.alloc))
+					nw := c19Copy(o.latest())
+					if o.isRsv {
+						rhR.OnUpdate(o.latest(), nw)
+					} else {
+						hR.OnUpdate(o.latest(), nw)
+					}
+					o.afterTopo = true
+					c.Op("[harness] re-delivered %s %s by a no-op update after reporting the lost allocation", o.kind(), o.name)
+				}
+			}
 			if r.Bool() {
 				// two phases: snapshot, comparison, then the tail in order
-				deliver(queues[true]) // reservations are synced before the pod handler sees pods
-				deliver(queues[false])
+				deliverAll()
 				c.Op("---- comparison after the snapshot")
+				lostBeforeTopology()
 				cmp.compare(rmL, rmR, tomL, tomR)
 				for i := 0; i < ntail; i++ {
 					if _, ev := tail(); ev != nil {
@@ -1237,12 +1330,11 @@ func TestVerifC19NUMARestart(t *testing.T) {
 						queues[o.isRsv][qi] = append(queues[o.isRsv][qi], *ev)
 					}
 				}
-				deliver(queues[true])
-				deliver(queues[false])
+				deliverAll()
 			}
 			c.Op("---- final comparison")
 			c.Count("surviving_allocations", survivors)
-
+			lostBeforeTopology()
 			cmp.compare(rmL, rmR, tomL, tomR)
 
 			two := false
@@ -1255,32 +1347,6 @@ func TestVerifC19NUMARestart(t *testing.T) {
 				c.NonTrivial()
 			}
 
-			// ---- information only (never a verdict): the same surviving objects delivered BEFORE the node's
-			// topology is known, an order DESIGN.md excludes. Counts the allocations such a start-up would drop.
-			{
-				tomX := NewTopologyOptionsManager()
-				rmX := &resourceManager{numaAllocateStrategy: rmL.numaAllocateStrategy, topologyOptionsManager: tomX, nodeAllocations: map[string]*NodeAllocation{}}
-				hX := &podEventHandler{resourceManager: rmX}
-				rhX := reservationutil.NewReservationToPodEventHandler(hX, reservationutil.IsObjValidActiveReservation)
-				want := 0
-				for _, o := range objs {
-					if o.holds() && !c19Empty(o.alloc) {
-						want++
-						if o.isRsv {
-							rhX.OnAdd(o.latest(), true)
-						} else {
-							hX.OnAdd(o.latest(), true)
-						}
-					}
-				}
-				got := 0
-				for _, n := range nodes {
-					n.install(tomX)
-					got += len(rmX.GetNodeAllocation(n.name).allocatedPods)
-				}
-				c.Count("info_pods_before_topology_probe_allocations", want)
-				c.Count("info_pods_before_topology_probe_allocations_lost", want-got)
-			}
 			if c.K < 2 {
 				ops := c.Ops()
 				if len(ops) > 14 {
